@@ -1049,9 +1049,10 @@ def awake_twins(hists, per_history=25):
     return index, twins
 
 
-def sleepy_history(rng, version, length, fault_p=0.0, cancel_p=0.0, payloads=None):
+def sleepy_history(rng, version, length, fault_p=0.0, cancel_p=0.0, payloads=None, internal_types=(22, 32, 33, 21, 0)):
     """Sends and wake / non-wake messages over 3 nodes x 2 children x 2 types.  `payloads`: the values of the set
-    commands are drawn from this pool instead of being small numbers."""
+    commands are drawn from this pool instead of being small numbers.  `internal_types`: the internal messages the nodes
+    send besides their wake signal."""
     h = Hist(version, True)
     for n in (1, 2, 3):
         h.preload.append(("node", n, 17, "2.0", "", "", 0, 0, False, rng.random() < 0.6))
@@ -1067,7 +1068,7 @@ def sleepy_history(rng, version, length, fault_p=0.0, cancel_p=0.0, payloads=Non
         elif r < 0.8:
             op = ("recv", f"{n};255;3;0;{wake_t};7", (), gw.DEFAULT_TIME)
         elif r < 0.88:
-            op = ("recv", f"{n};255;3;0;{rng.choice((22, 32, 33, 21, 0))};7", (), gw.DEFAULT_TIME)
+            op = ("recv", f"{n};255;3;0;{rng.choice(internal_types)};7", (), gw.DEFAULT_TIME)
         elif r < 0.92:
             # the gateway reports a (possibly different) version while commands are parked: nothing may be dropped
             rep = rng.choice(["2.0", "2.1", "2.2", "2.1.1", "2.2.0", version])
@@ -1089,11 +1090,186 @@ def sleepy_history(rng, version, length, fault_p=0.0, cancel_p=0.0, payloads=Non
     return h
 
 
+def all_internal_types():
+    """Every internal type some protocol version knows, and two numbers past the newest table."""
+    known = sorted({int(t) for v in lib.VERSIONS for t in proto_tables(v)["internal"]})
+    return known + [known[-1] + 1, known[-1] + 7]
+
+
+def between_internal_histories(ctx, corr: Corr):
+    """Histories about what a node known to be sleeping may send BETWEEN the moment a command is parked for it and its
+    wake without ending the waiting: every internal type of every version's table (the version's own wake signal
+    included; also the numbers that exist in other versions only and two that exist nowhere: rejected lines), under every
+    version, from the node a command is parked for - the node known to be sleeping from its restored record (all
+    versions) or from its own wake signal earlier in the history (2.x).  Afterwards the application sends for the SAME
+    key (must replace the parked value, not go out), for another key of the node, to another sleeping node and to an
+    awake node; the node wakes (the latest values, once), a command is parked again, the other sleeping node sends the
+    same internal message, more sends, both wake.  Under 1.x nothing ever releases.  Only recv / send operations: every
+    history also runs through the Lean model."""
+    t0 = gw.DEFAULT_TIME
+    hists = []
+    k = 0
+    for v in lib.VERSIONS:
+        wake_t = None if v not in V20 else 32 if v == "2.2" else 22
+
+        def wake(node, wake_t=wake_t):
+            # (1.x has no wake signal: a battery report stands in its place and releases nothing)
+            return ("recv", f"{node};255;3;0;{0 if wake_t is None else wake_t};57", (), t0)
+        own = set(proto_tables(v)["internal"])
+        for t in all_internal_types():
+            for announced in ((False, True) if v in V20 and str(t) in own else (False,)):
+                k += 1
+                n, m, a = [(1, 2, 3), (3, 1, 2), (2, 254, 1), (254, 3, 7)][k % 4]
+                c0, c1 = [(0, 1), (1, 0), (0, 254)][k % 3]
+                ta, tb = [(2, 0), (0, 2), (2, 3)][k % 3]
+                pay = v if t == 2 else ("", "1", "500", "0")[k % 4] if not announced else ("500", "", "1")[k % 3]
+                h = Hist(v, True)
+                for node, flag in ((n, not announced), (m, True), (a, False)):
+                    h.preload.append(("node", node, 17, "2.0", "", "", 0, 0, False, flag))
+                    for c in (c0, c1):
+                        h.preload.append(("child", node, c, c, 6, ""))
+                between = ("recv", f"{n};255;3;0;{t};{pay}", (), t0)
+                h.ops = ([wake(n)] if announced else []) + [
+                    ("send", (n, c0, 1, 0, ta, "10"), True, ()), ("send", (m, c0, 1, 0, ta, "50"), True, ()),
+                    between,
+                    ("send", (n, c0, 1, k % 2, ta, "11"), True, ()), ("send", (n, c1, 1, 0, tb, "12"), True, ()),
+                    ("send", (m, c0, 1, 0, ta, "51"), True, ()), ("send", (a, c0, 1, 0, ta, "70"), True, ()),
+                    wake(n),
+                    ("send", (n, c0, 1, 0, ta, "13"), True, ()),
+                    ("recv", f"{m};255;3;0;{t};{pay}", (), t0),
+                    ("send", (m, c1, 1, 0, tb, "52"), True, ()), ("send", (n, c0, 1, 0, ta, "14"), True, ()),
+                    wake(m), wake(n), wake(n)]
+                hists.append(h)
+    corr.count("histories: every internal type between parking and wake (grid)", len(hists))
+    return hists
+
+
+def _key_of_line(line):
+    part = line.split(";", 5)
+    try:
+        return (int(part[0]), int(part[1]), int(part[4]))
+    except (ValueError, IndexError):
+        return None
+
+
+def _announces_awake(proto: str, f, registered) -> bool:
+    """Does this received message announce that its (registered) node is awake - the wake signal of the ACTIVE protocol
+    (heartbeat response under 2.0 / 2.1, pre-sleep notification under 2.2; 1.x has none), a valid message?"""
+    return f is not None and is_wake(proto, f) and f[0] in registered and _heartbeat_accepted(proto, f)
+
+
+def _presents_node_again(proto: str, f) -> bool:
+    """A node presentation the active protocol decodes: the node (re)booted, the registry gets a fresh record for it."""
+    return f is not None and f[2] == 0 and f[1] == 255 and str(f[4]) in proto_tables(proto)["presentation"]
+
+
+def c07_known_sleeping(h: Hist, io):
+    """C07's own notion of "a node known to be sleeping", read off the HISTORY - never off the library's `sleeping`
+    flag, which is the mechanism under test.  One set per step: the registered nodes known to be sleeping BEFORE
+    operation i (and, last, after the whole history).
+
+    * at the start: the nodes whose restored record says so (the flag restored from persistence);
+    * a registered node becomes known to be sleeping when it announces that it is awake with the wake signal of the
+      active protocol - that announcement is how a smart-sleep node makes itself known;
+    * it STAYS known to be sleeping - whatever else it or anybody sends, whatever the application sends, across
+      reconnects and version reports: the property names the wake signal and gives no message that ends the waiting -
+      until the node presents itself again (a node presentation: the node booted, the registry holds a fresh record for
+      it; DESIGN section 6, the observation on re-presentation, which the property does not speak about).
+
+    Of the implementation's observations only the active protocol and the registry's ids are read."""
+    sleepers = {p[1] for p in h.preload if p[0] == "node" and p[9]}
+    out = [set(sleepers)]
+    for i, op in enumerate(h.ops):
+        if op[0] == "recv":
+            before = io[i]
+            f = fields_of(op[1])
+            if _announces_awake(before["proto"], f, before["nodes"]):
+                sleepers.add(f[0])
+            elif _presents_node_again(before["proto"], f):
+                sleepers.discard(f[0])
+        out.append(set(sleepers))
+    return out
+
+
+def c07_judge(h: Hist, io, twin_writes=None, count=None):
+    """The property restated over one observed trace.  Returns None or (what, case) for the first step that violates it.
+    Which destinations are sleeping is the property's own bookkeeping (`c07_known_sleeping`); what is parked is the
+    oracle's own bookkeeping of the sends it saw."""
+    count = count or (lambda *a: None)
+    twin_writes = twin_writes or (lambda version, f: None)
+    known = c07_known_sleeping(h, io)
+    parked: dict = {}
+    for i, op in enumerate(h.ops):
+        before, o = io[i], io[i + 1]
+        got = [w[0] for w in o["writes"]]
+        case = {"history": Hist(h.version, h.metric, h.preload, h.ops[: i + 1]).to_json(), "outcome": o["out"], "writes": got,
+                "known_to_be_sleeping_from_the_history": sorted(known[i])}
+        if op[0] == "session":
+            if got or o["out"] != "ok":
+                return "leaving and re-entering the gateway context wrote something or failed", case
+            continue
+        if op[0] == "assign":
+            continue
+        if op[0] == "send":
+            f = op[1]
+            if f is None or f[2] != 1:
+                continue
+            sleeping = f[0] in known[i] and f[0] in before["nodes"]
+            flag = before["nodes"][f[0]]["sleeping"] if f[0] in before["nodes"] else None
+            if sleeping and op[2]:
+                count("oracle: set command for a node known (from the history) to be sleeping")
+                if got or o["out"] != "ok":
+                    return ("a set command for a sleeping node was written (or failed) instead of waiting for its wake",
+                            {**case, "the_library_flag_of_the_node": flag})
+                parked[(f[0], f[1], f[4])] = f
+            else:
+                if got != [line_of(f)]:
+                    return ("a set command for a node not known to be sleeping was not written immediately and unchanged",
+                            {**case, "the_library_flag_of_the_node": flag})
+            continue
+        f = fields_of(op[1])
+        if _announces_awake(before["proto"], f, before["nodes"]):
+            mine = [k for k in parked if k[0] == f[0]]
+            want = [line_of(parked[k]) for k in mine]
+            if sorted(got) != sorted(want) or len(set(got)) != len(got):
+                return ("a wake did not release exactly the latest parked value of each of that node's keys, once",
+                        {**case, "want": want,
+                         "held": [{"message_sent": list(parked[k]), "written_at_the_wake": [g for g in got if _key_of_line(g) == k],
+                                   "the_same_send_to_the_node_awake_writes": twin_writes(h.version, parked[k])} for k in mine]})
+            # byte for byte what the same send writes when the node is awake (the twin history)
+            for k in mine:
+                tw = twin_writes(h.version, parked[k])
+                if tw is None:
+                    continue
+                count("oracle: line written at the wake compared with the awake twin's immediate write")
+                at_wake = [g for g in got if _key_of_line(g) == k]
+                if at_wake != tw:
+                    return ("the line written at the wake is not the line the same send writes for the node awake",
+                            {**case, "message_sent": list(parked[k]), "written_at_the_wake": at_wake,
+                             "the_same_send_to_the_node_awake_writes": tw})
+            for k in mine:
+                del parked[k]
+            continue
+        # every other received line - rejected, of another command, an internal message that is not the wake signal of
+        # the active protocol (or comes from a node that is not registered): releases nothing, changes nothing parked
+        if f is not None and f[2] == 3 and any(";1;" in g and g.split(";")[2] == "1" for g in got):
+            return "a message that is not a wake of that node released parked commands", case
+        if before["sbuf"] != o["sbuf"]:
+            return "a received message that is not a wake changed what is parked", case
+        if f is not None and f[2] == 3 and f[0] in known[i]:
+            count("oracle: internal message that is not the wake signal, from a node known to be sleeping")
+    return None
+
+
 def run_c07(ctx) -> Corr:
     corr = Corr("C07", "sequential interleavings of send calls and received wake / non-wake messages over 3 nodes x 2 children "
                 "x 2 value types (overwrites before a wake, sends between wakes, re-parking after a flush, re-presentations), "
                 "5 versions incl. 1.x with sleeping flags restored from persistence; compared on the writes view with the Lean "
-                "model; oracle = bookkeeping of the latest parked value per key from the trace. In addition WHAT a held command "
+                "model; oracle = bookkeeping of the latest parked value per key from the trace, and of the destinations known to be "
+                "sleeping from the HISTORY (restored flag, the node's wake signals, until it presents itself again) - never from "
+                "the library's own flag; every internal type of every version (and two unknown ones) from the sleeping node "
+                "between parking and wake, followed by sends for the same key, another key, another sleeping node, an awake "
+                "node, x 5 versions x node known from its restored record / from its own wake signal. In addition WHAT a held command "
                 "carries: every payload kind of held_payload_kinds (outer whitespace of each of Python's 29 whitespace code "
                 "points, delimiters, empty, numeric-looking text, non-ASCII, control characters, very long) x 4 versions with "
                 "hold / second node / second key / unbuffered send / wake / overwrite in both orders by a value differing in "
@@ -1103,8 +1279,13 @@ def run_c07(ctx) -> Corr:
     rng = lib.rng_for(ctx.seed, "c07")
     hists = [h for _, h in corpus_histories("C07")]
     n = 250 if ctx.tier == "quick" else 4000
+    every = all_internal_types()
     for i in range(n):
-        hists.append(sleepy_history(rng, lib.VERSIONS[i % 5], rng.randint(5, 40 if ctx.tier == "quick" else 120)))
+        # (every other round of the five versions: the nodes' other internal messages are drawn from every internal type)
+        hists.append(sleepy_history(rng, lib.VERSIONS[i % 5], rng.randint(5, 40 if ctx.tier == "quick" else 120),
+                                    **({"internal_types": every} if i // 5 % 2 else {})))
+    # whatever a sleeping node sends between the parking of a command and its wake, it stays a sleeping destination
+    hists += between_internal_histories(ctx, corr)
     # what a held command carries when it is written at the wake (value kinds that an immediate write leaves alone)
     held = held_payload_histories(ctx, corr)
     twin_index, twins = awake_twins(held)
@@ -1121,74 +1302,10 @@ def run_c07(ctx) -> Corr:
         j = twin_index.get((version, f))
         return None if j is None else [w[0] for w in impl[twin_base + j[0]][j[1]]["writes"]]
 
-    def key_of_line(line):
-        part = line.split(";", 5)
-        try:
-            return (int(part[0]), int(part[1]), int(part[4]))
-        except (ValueError, IndexError):
-            return None
-
     for h, io in zip(hists, impl):
-        parked: dict = {}
-        for i, op in enumerate(h.ops):
-            before, o = io[i], io[i + 1]
-            case = {"history": Hist(h.version, h.metric, h.preload, h.ops[: i + 1]).to_json(), "outcome": o["out"],
-                    "writes": [w[0] for w in o["writes"]]}
-            got = [w[0] for w in o["writes"]]
-            if op[0] == "session":
-                if got or o["out"] != "ok":
-                    corr.violate("leaving and re-entering the gateway context wrote something or failed", case)
-                    break
-                continue
-            if op[0] == "send":
-                f = op[1]
-                if f is None:
-                    continue
-                node = before["nodes"].get(f[0])
-                if f[2] == 1 and op[2] and node is not None and node["sleeping"]:
-                    if got or o["out"] != "ok":
-                        corr.violate("a set command for a sleeping node was written (or failed) instead of waiting for its wake", case)
-                        break
-                    parked[(f[0], f[1], f[4])] = f
-                elif f[2] == 1:
-                    if got != [line_of(f)]:
-                        corr.violate("a set command for a node not known to be sleeping was not written immediately and unchanged", case)
-                        break
-            else:
-                f = fields_of(op[1])
-                if is_wake(before["proto"], f) and f[0] in before["nodes"]:
-                    mine = [k for k in parked if k[0] == f[0]]
-                    want = [line_of(parked[k]) for k in mine]
-                    if sorted(got) != sorted(want) or len(set(got)) != len(got):
-                        corr.violate("a wake did not release exactly the latest parked value of each of that node's keys, once",
-                                     {**case, "want": want,
-                                      "held": [{"message_sent": list(parked[k]), "written_at_the_wake": [g for g in got if key_of_line(g) == k],
-                                                "the_same_send_to_the_node_awake_writes": twin_writes(h.version, parked[k])} for k in mine]})
-                        break
-                    # byte for byte what the same send writes when the node is awake (the twin history)
-                    bad = None
-                    for k in mine:
-                        tw = twin_writes(h.version, parked[k])
-                        if tw is None:
-                            continue
-                        corr.count("oracle: line written at the wake compared with the awake twin's immediate write")
-                        at_wake = [g for g in got if key_of_line(g) == k]
-                        if at_wake != tw:
-                            bad = {"message_sent": list(parked[k]), "written_at_the_wake": at_wake,
-                                   "the_same_send_to_the_node_awake_writes": tw}
-                            break
-                    if bad is not None:
-                        corr.violate("the line written at the wake is not the line the same send writes for the node awake", {**case, **bad})
-                        break
-                    for k in mine:
-                        del parked[k]
-                elif f is not None and f[2] == 3:
-                    if any(";1;" in g and g.split(";")[2] == "1" for g in got):
-                        corr.violate("a message that is not a wake of that node released parked commands", case)
-                        break
-                elif before["sbuf"] != o["sbuf"]:
-                    corr.violate("a received message that is not a wake changed what is parked", case)
-                    break
+        bad = c07_judge(h, io, twin_writes, corr.count)
+        if bad is not None:
+            corr.violate(bad[0], bad[1])
     account(corr, hists, impl, lambda h, op, before, o: before["sbuf"] != o["sbuf"])
     return corr
 
